@@ -84,3 +84,143 @@ def labels_resolved(p: ts.Prog) -> bool:
             if any(a not in p.labels for a in ins.args):
                 return False
     return True
+
+
+# ---------------------------------------------------------------------------------------------
+# tealer's graph, read from the real objects
+# ---------------------------------------------------------------------------------------------
+
+
+class TealerGraph:
+    """Finite relations extracted from a real ``Teal`` (or ``Function``) object, keyed by instruction
+    indices of the independent token list (matched by source line)."""
+
+    def __init__(self, prog: ts.Prog, blocks: Sequence[object]):
+        self.prog = prog
+        self.line_to_pc = {ins.line: ins.idx for ins in prog.ins}
+        self.blocks = list(blocks)
+        self.bid = {id(b): k for k, b in enumerate(self.blocks)}
+        self.block_pcs: List[List[int]] = []
+        self.block_of: Dict[int, int] = {}
+        self.synthetic: Set[int] = set()
+        self.dup_pcs: List[int] = []
+        for k, b in enumerate(self.blocks):
+            pcs = []
+            for ins in b.instructions:  # type: ignore[attr-defined]
+                pc = self.line_to_pc.get(ins.line)
+                if pc is None:
+                    self.synthetic.add(k)
+                    continue
+                pcs.append(pc)
+                if pc in self.block_of:
+                    self.dup_pcs.append(pc)
+                self.block_of[pc] = k
+            self.block_pcs.append(pcs)
+        self.first = [p[0] if p else -1 for p in self.block_pcs]
+        self.last = [p[-1] if p else -1 for p in self.block_pcs]
+
+    def ids(self, bs: Sequence[object]) -> List[int]:
+        """Block ids of a list of block objects; -1 for an object that is not in the graph."""
+        return [self.bid.get(id(b), -1) for b in bs]
+
+    def nexts(self, k: int) -> List[int]:
+        return self.ids(self.blocks[k].next)  # type: ignore[attr-defined]
+
+    def prevs(self, k: int) -> List[int]:
+        return self.ids(self.blocks[k].prev)  # type: ignore[attr-defined]
+
+
+# ---------------------------------------------------------------------------------------------
+# z3 renderings
+# ---------------------------------------------------------------------------------------------
+
+
+def _z3():
+    import z3  # imported lazily: tealsem/cfgsem basics stay importable without z3
+
+    return z3
+
+
+class GStats:
+    def __init__(self) -> None:
+        self.sat = 0
+        self.unsat = 0
+        self.unknown = 0
+        self.time = 0.0
+        self.states = 0
+        self.transitions = 0
+
+    def as_dict(self) -> Dict[str, float]:
+        return {"sat": self.sat, "unsat": self.unsat, "unknown": self.unknown, "solver_s": round(self.time, 3)}
+
+
+class GSolver:
+    def __init__(self, stats: GStats, timeout_ms: int = 20000):
+        z3 = _z3()
+        self.z3 = z3
+        self.s = z3.Solver()
+        self.s.set("timeout", timeout_ms)
+        self.stats = stats
+
+    def check(self, *assumptions) -> str:
+        import time as _t
+
+        t0 = _t.time()
+        r = str(self.s.check(*assumptions))
+        self.stats.time += _t.time() - t0
+        if r == "sat":
+            self.stats.sat += 1
+        elif r == "unsat":
+            self.stats.unsat += 1
+        else:
+            self.stats.unknown += 1
+        return r
+
+
+def sem_step_relation(p: ts.Prog, z3, pc, pc2, ret, choice):
+    """One step of the control-flow semantics from an arbitrary state.
+
+    pc, pc2: Int terms (pc2 == len(p.ins) means the program ended by falling off the end);
+    ret: Int term, the return address on top of the call stack; choice: Int term (branch outcome).
+    Returns a z3 formula: the step pc -> pc2 is possible."""
+    n = len(p.ins)
+    cases = []
+    for i, ins in enumerate(p.ins):
+        op = ins.op
+        here = pc == i
+        if op in ("return", "err"):
+            continue  # no successor
+        if op == "b":
+            cases.append(z3.And(here, pc2 == p.labels[ins.args[0]]))
+        elif op in ("bz", "bnz"):
+            cases.append(z3.And(here, z3.Or(pc2 == i + 1, pc2 == p.labels[ins.args[0]])))
+        elif op in ("switch", "match"):
+            cases.append(z3.And(here, z3.Or(pc2 == i + 1, *[pc2 == p.labels[a] for a in ins.args])))
+        elif op == "callsub":
+            cases.append(z3.And(here, pc2 == p.labels[ins.args[0]]))
+        elif op == "retsub":
+            cases.append(z3.And(here, pc2 == ret))
+        else:
+            cases.append(z3.And(here, pc2 == i + 1))
+    return z3.Or(*cases) if cases else z3.BoolVal(False)
+
+
+def region_of(p: ts.Prog) -> Dict[int, Set[str]]:
+    """pc -> names of the code regions (main / subroutines) that contain it (call-free reachability)."""
+    out: Dict[int, Set[str]] = {}
+    for pc in reach(p, 0):
+        out.setdefault(pc, set()).add("__main__")
+    for name, e in sub_entries(p).items():
+        for pc in reach(p, e):
+            out.setdefault(pc, set()).add(name)
+    return out
+
+
+def valid_return_addresses(p: ts.Prog) -> Dict[str, List[int]]:
+    """subroutine name -> addresses a retsub inside it may return to (pc+1 of every retained call site)."""
+    ret: Dict[str, List[int]] = {}
+    keep = retained(p)
+    for ins in p.ins:
+        if ins.op == "callsub" and ins.idx in keep:
+            ret.setdefault(ins.args[0], []).append(ins.idx + 1)
+    return ret
